@@ -266,15 +266,26 @@ def observed(ctx, rules):
         return "crash", core.crash_signature(res)
     rep = json.loads(res["out"])
     vals = []
-    for e in rep.get("not_compliant", []):
-        for c in e["Rule"]["checks"]:
+
+    def walk(checks):
+        for c in checks:
+            if "Rule" in c:                 # the checks of a parameterised rule called from the observed rule
+                bad = walk(c["Rule"]["checks"])
+                if bad:
+                    return bad
+                continue
             chk = (c.get("Clause") or {}).get("Binary", {}).get("check", {})
             if "Resolved" in chk:
                 vals.append(chk["Resolved"]["from"]["value"])
             elif "InResolved" in chk:
                 vals.append(chk["InResolved"]["from"]["value"])
             else:
-                return "odd", json.dumps(chk)[:200]
+                return json.dumps(chk)[:200]
+        return None
+    for e in rep.get("not_compliant", []):
+        bad = walk(e["Rule"]["checks"])
+        if bad:
+            return "odd", bad
     return "values", vals
 
 
@@ -338,12 +349,18 @@ def shard(ctx):
     # ---- exhaustive: every unary function x every query x 3 argument forms
     for fname in UNARY_FNS:
         for q, vals in QUERIES:
-            for form in ("query", "variable", "literal"):
+            for form in ("query", "variable", "literal", "file-let", "call-argument"):
                 idx += 1
                 if not ctx.mine(idx):
                     continue
                 if form == "query":
                     judge(ctx, fname, form, rule_text([], "%s(%s)" % (fname, q)), [vals], "query")
+                elif form == "file-let":
+                    # the call bound at file level, read inside a rule
+                    judge(ctx, fname, form, "let res = %s(%s)\nrule r {\n    %%res == \"%s\"\n}\n" % (fname, q, NEVER), [vals], "file-let")
+                elif form == "call-argument":
+                    # the call written as the argument of a parameterised rule, read through the parameter
+                    judge(ctx, fname, form, "rule obs(res) {\n    %%res == \"%s\"\n}\nrule r {\n    obs(%s(%s))\n}\n" % (NEVER, fname, q), [vals], "call-argument")
                 elif form == "variable":
                     judge(ctx, fname, form, rule_text([("v", q)], "%s(%%v)" % fname), [vals], "variable")
                 else:
